@@ -139,6 +139,9 @@ class Ctx:
         tie (translator could not regenerate the model)."""
         self.failures.append(Failure(key, kind, what, replay))
 
+    def is_known(self, key):
+        return any(k.get("status") == "known" and k["property"] == self.prop and k["key"] == key for k in self.known)
+
     def trust(self, *items):
         for i in items:
             if i not in self.trusted:
@@ -258,6 +261,8 @@ class Ctx:
                 seen.add(f.key)
                 print(f"KNOWN-FINDING: property={self.prop} {k['id']} {k['what']}")
         out_viol = []
+        for old in REPLAY.glob(f"{self.prop}_*.json"):
+            old.unlink()
         if violations:
             concrete = [f for f, _ in violations if f.kind in ("impl", "corr") and f.replay is not None]
             broken = [f for f, _ in violations if f.kind in ("proof", "tie") or f.replay is None]
